@@ -101,7 +101,7 @@ theorem serToken_flow (tok : List Char) : FlowOKP (fun s => .ok (serToken o tok 
     (by_cases hp : s.pendingSpaceAfterColon = true <;>
       simp [serToken, writeSpaceIfPending, indentIfLineStart, writeEndOfScalar, St.write, sp, hne, hp, *, h.pss])
 
-theorem serStr_flow (ho : FragOpts o) (hf : SafeContract f) {v : List Char} (hs : isSafeStr v = true) {s : St}
+theorem serStr_flow (ho : PlainOpts o) (hf : SafeContract f) {v : List Char} (hs : isSafeStr v = true) {s : St}
     (h : Mid s) (hfl : s.inFlow ≥ 1) : serStr o f v s = serToken o v s := by
   have hp := isSafeStr_not_punct hs
   have hq := ho.quoteAll
@@ -200,14 +200,14 @@ theorem map_flow_step (known : Bool) {es : List (SVal × SVal)} (hes : FlowEntri
   · simp [mapEnd, hr, hmf, St.write, hne, hi, hi1, hs0]
 
 /-- an enum variant with data inside a flow collection: `{Variant: payload}` -/
-theorem variant_flow_step (ho : FragOpts o) (hf : SafeContract f) {n : List Char} (hn : isSafeStr n = true)
+theorem variant_flow_step (ho : PlainOpts o) (hf : SafeContract f) {n : List Char} (hn : isSafeStr n = true)
     {P : St → Except EmitErr St} {txt : List Char} (hP : FlowOKP P txt) :
     FlowOKP (variantRun o f n P) (flowVariant n txt) := by
   intro s h hfl
   have hz : s.inFlow > 0 := by omega
   have hbv : beginVariant o f n s =
       ({ flow := true }, { (writeSpaceIfPending s).write ('{' :: n ++ [':']) with pendingSpaceAfterColon := true, atLineStart := false }) := by
-    simp [beginVariant, hz, plainOrQuoted_safe ho hf hn]
+    simp [beginVariant, hz, plainOrQuoted_safe ho.quoteAll hf hn]
   have hm0 : Mid ({ (writeSpaceIfPending s).write ('{' :: n ++ [':']) with pendingSpaceAfterColon := true, atLineStart := false } : St) := by
     constructor <;> (by_cases hp : s.pendingSpaceAfterColon = true <;> simp [writeSpaceIfPending, St.write, hp, h.pss])
   obtain ⟨s2, he, hout, hm, hp, hi⟩ := hP _ hm0 (by
@@ -288,7 +288,7 @@ theorem flow_entries_cons (hf : SafeContract f) {kt : List Char} {v : SVal} {es 
     cases mfirst <;> simp [s1, s2, St.write]
 
 section
-variable (ho : FragOpts o) (hf : SafeContract f)
+variable (ho : PlainOpts o) (hf : SafeContract f)
 include ho hf
 
 mutual
